@@ -270,6 +270,10 @@ pub fn adjust(cfg: &mut SwarmCfg, tier: &str, r: &mut Prng) {
             cfg.faults = sv(&["C-FLIP", "C-TRUNC", "C-LEN-HUGE", "C-LEN-NONMINIMAL", "C-DISCRIMINANT", "C-TAIL", "C-RANDOM", "S-FLIP", "N-RACE"]);
             cfg.knobs.push(("codec-mutations".into(), 6));
             cfg.knobs.push(("boundary-sizes".into(), 1));
+            if r.chance(1, 3) {
+                // re-initialisation commits and what is reported about them
+                cfg.knobs.push(("reinit".into(), 1));
+            }
             cfg.knobs.push(("psk".into(), 1));
             cfg.knobs.push(("detached".into(), 5));
             cfg.knobs.push(("ext-sender".into(), 1));
